@@ -283,13 +283,37 @@ func main() {
 			}
 		}})
 	// pk / sk composition with marker polynomials
-	ck.Domains = append(ck.Domains, &drv.Domain{Name: "pk-sk-composition", Size: 64, Chunk: 4, Desc: "packPk/packSk/unpack with a distinct marker polynomial per component (detects cross-wiring and offset slips) vs the reference composition",
+	ck.Domains = append(ck.Domains, &drv.Domain{Name: "pk-sk-composition", Size: 64, Chunk: 4, Desc: "packPk/packSk/unpack with a distinct marker polynomial per component (detects cross-wiring and offset slips) vs the reference composition; cases 56..61: rho / tr / key made of 32 zero or FF bytes (whole-component boundary values)",
 		Run: func(c *drv.Ctx, lo, hi int64) {
 			for i := lo; i < hi; i++ {
 				c.At(i)
 				var rho, tr, key [32]byte
 				for k := 0; k < 32; k++ {
 					rho[k], tr[k], key[k] = byte(k+int(i)), byte(0x40+k+int(i)), byte(0x80+k+int(i))
+				}
+				// the last cases carry whole-component boundary values: a seed component of 32 zero / FF bytes
+				deg := func(b *[32]byte, v byte) {
+					for k := range b {
+						b[k] = v
+					}
+				}
+				switch i {
+				case 56:
+					deg(&rho, 0)
+				case 57:
+					deg(&rho, 0xFF)
+				case 58:
+					deg(&tr, 0)
+				case 59:
+					deg(&key, 0)
+				case 60:
+					deg(&rho, 0)
+					deg(&tr, 0)
+					deg(&key, 0)
+				case 61:
+					deg(&rho, 0xFF)
+					deg(&tr, 0xFF)
+					deg(&key, 0xFF)
 				}
 				var t1, t0, s2 [8][256]int32
 				var s1 [7][256]int32
